@@ -17,9 +17,11 @@ CLAIMS = {
 }
 GOALS = {
     'quick': ['unsorted listing', 'two events in one tick', 'equal times',
-              'event never fires'],
+              'event never fires',
+              'one dictionary object listed for two events'],
     'thorough': ['unsorted listing', 'two events in one tick', 'equal times',
-                 'event never fires'],
+                 'event never fires',
+                 'one dictionary object listed for two events'],
 }
 STUBS = ['Holder process declaring the driven variables (_emit)',
          'recording user Emitter (vsym_rec)']
@@ -67,6 +69,12 @@ def jobs(tier):
                             n=n, tau=tau, shared=shared, entry=entry, T=T,
                             calls=1, nested=True,
                             budget_s=100 if tier == 'quick' else 900))
+                    if entry == 'direct' and n == 3 and not shared:
+                        out.append(dict(
+                            name='n3-tau%d-shared-dict-object' % tau,
+                            n=n, tau=tau, shared=shared, entry=entry, T=T,
+                            calls=1, shared_dict=True,
+                            budget_s=100 if tier == 'quick' else 900))
                     out.append(dict(
                         name='n%d-tau%d-%s-%s-M%d' % (
                             n, tau, 'shared' if shared else 'distinct',
@@ -96,7 +104,16 @@ def body(ctx, cfg):
     init = {v: ctx.int('i', -5, -1) for v in variables}
     nested = bool(cfg.get('nested'))
     key = (lambda v: ('store', 'sub', v)) if nested else (lambda v: ('store', v))
+    if cfg.get('shared_dict') and n >= 3:
+        # the last event is listed with the very dictionary object of the
+        # first (the same change applied again later)
+        var_of[n - 1] = var_of[0]
+        vals[n - 1] = vals[0]
     timeline = [(times[i], {key(var_of[i]): vals[i]}) for i in range(n)]
+    if cfg.get('shared_dict') and n >= 3:
+        timeline[n - 1] = (times[n - 1], timeline[0][1])
+        ctx.goal('one dictionary object listed for two events')
+    listing_before = [(t, dict(ch)) for t, ch in timeline]
 
     sink = stubs.reset_sink()
     holder = Holder({'vars': variables, 'nested': nested})
@@ -164,7 +181,7 @@ def body(ctx, cfg):
                                           for i in range(n)],
                                 initial=init, tau=tau, rows=sink['rows']))
 
-    if not cfg['shared']:
+    if not cfg['shared'] and not cfg.get('shared_dict'):
         once = []
         for j in range(n):
             cnt = 0
